@@ -134,8 +134,9 @@ def scenario(ctx, rng, j):
     pks = [sigmsg.pubkey(s) for s in seeds]
     from ..gen import auth as _auth
     fields = _auth.sigfields(rng, must=(1, 3))
-    allowed = rng.choice((0, 0, 1, 4, 5, 0xff))
-    f = rng.choice([x for x in (0, 1, 4, 5) if not (x & ~allowed & 0xff)])
+    allowed = rng.choice((0, 0, 1, 4, 5, 0x1a, 0x90, 0xb1, 0xff))
+    f = rng.choice([x for x in (0, 1, 4, 5, 0x10, 0x0a, 0x80, 0x90, 0x12,
+                                0xb1) if not (x & ~allowed & 0xff)])
     a_hex, f_hex = f'{allowed:02x}', f'{f:02x}'
     t = T0 + rng.randrange(0, 10**6)
     # windows: all comfortably around t, except one link at a boundary
